@@ -11,6 +11,10 @@
  *   CAT_TR             amc::is_trivially_relocatable<E>
  *   CAT_NOTHROW_MOVE   nothrow move construction / assignment
  */
+#ifdef L0_CONCRETE
+#include "l0c.h"
+#define L0_H
+#endif
 #ifndef L0_H
 #define L0_H
 #include <stdint.h>
